@@ -80,10 +80,11 @@ def one_schedule(scn, first, k1, k2, k3=None):
     bt = baton.Baton(TRACED)
     lock = baton.BatonLock(bt, lambda: threading.current_thread().name)
     if _set_locks(sim.trx[ms], lambda: lock) == 0:
-        # no mutex found on the transceiver object: a pre-empted thread could block on a lock the baton
-        # does not know, so only the two sequential orders are run
+        # no mutex found on the transceiver object (a lock-free queue?): schedules are enumerated all the
+        # same; should a pre-empted thread block on a lock the baton does not know, the watchdog of the
+        # baton ends that schedule and only the two sequential orders are run from then on
         _SIM["nolock"] = True
-        if k1 < 10 ** 6:
+        if _SIM.get("stuck") and k1 < 10 ** 6:
             k1, k2, k3 = 10 ** 6, 0, None
     sim.net.take()
 
@@ -119,7 +120,8 @@ def one_schedule(scn, first, k1, k2, k3=None):
     def sock_one(op):
         if op["op"] == "arrive":
             log.append(dict(e="sockStart", op="arrive", m=op["m"]))
-            sim.trx[ms].data_if.sock.feed(FC.tx_datagram(0, op["m"]["fn"], op["m"]["id"], 0, bytes(148)))
+            dif = sim.trx[ms].data_if
+            dif.sock.feed(FC.tx_datagram(0, op["m"]["fn"], op["m"]["id"], 0, bytes(148)), (dif.remote_addr, dif.remote_port))
             r = sim.trx[ms].recv_data_msg()
             log.append(dict(e="sockEnd", acc=r is not None))
         else:
@@ -135,6 +137,12 @@ def one_schedule(scn, first, k1, k2, k3=None):
 
     try:
         steps = bt.run({"sock": _named(sock, "sock"), "clk": _named(clk, "clk")}, first, k1, k2, k3)
+    except baton.BatonStuck:
+        _SIM["stuck"] = True
+        _SIM.pop("sim", None)            # that application instance has a thread parked inside it
+        logging.getLogger().removeHandler(h)
+        sim.net.hook = None
+        return one_schedule(scn, first, 10 ** 6, 0)
     finally:
         logging.getLogger().removeHandler(h)
         sim.net.hook = None
@@ -247,7 +255,9 @@ def schedules(ctx, only=None):
         ctx.log("scenario %d: %d+%d line steps, %d executions so far" % (si, na, nb, nexec))
     ctx.extra["schedules_executed"] = nexec
     if _SIM.get("nolock"):
-        ctx.extra["schedules_note"] = "no mutex attribute found on the transceiver object: only sequential orders were run"
+        ctx.extra["schedules_note"] = ("no mutex attribute found on the transceiver object" +
+                                       ("; a pre-empted thread blocked on an unknown lock: only sequential orders were run from then on"
+                                        if _SIM.get("stuck") else "; schedules enumerated all the same"))
     # identical event sequences need to be validated only once
     uniq = {}
     for t in traces:
